@@ -372,6 +372,8 @@ def req_line(ct, cl, max_memfile, rec, accs):
         fr = 'e:size'
     elif rec['framing'] == 'BodyParsingError':
         fr = 'e:parsing'
+    elif rec['framing'] is None:
+        fr = 'c:~'          # the reader never ran: the model must not consult its result either
     else:
         return None
     return 'forms req %s %d %d %s %s %s' % ('~' if ct is None else hs(ct), cl, max_memfile, fr, rec['json'], ','.join(accs))
